@@ -80,6 +80,12 @@ impl Fetcher {
 
           log::info!("failed to fetch raw transactions, retrying: {error}");
 
+          #[cfg(feature = "verif")]
+          if crate::verif::sleep(Duration::from_millis(100 * u64::pow(2, retries))) {
+            retries += 1;
+            continue;
+          }
+
           tokio::time::sleep(Duration::from_millis(100 * u64::pow(2, retries))).await;
           retries += 1;
           continue;
@@ -121,6 +127,12 @@ impl Fetcher {
   }
 
   async fn try_get_transactions(&self, body: String) -> Result<Vec<JsonResponse<String>>> {
+    #[cfg(feature = "verif")]
+    if let Some(reply) = crate::verif::fetch_rpc(&body) {
+      return serde_json::from_str(&reply?)
+        .map_err(|e| anyhow!("failed to parse JSON-RPC response: {e}"));
+    }
+
     let req = Request::builder()
       .method(Method::POST)
       .uri(&self.url)
